@@ -1051,3 +1051,19 @@ func DeriveAtoms(atoms []string) []string {
 	}
 	return sortedCopy(out)
 }
+
+// Consistent reports whether a conjunction of rendered atoms contains no atom
+// together with its negation (syntactic paths of the normal form may combine
+// tests that exclude each other).
+func Consistent(atoms []string) bool {
+	have := map[string]bool{}
+	for _, a := range atoms {
+		have[strings.TrimSpace(a)] = true
+	}
+	for a := range have {
+		if a == "false" || have[negAtom(a)] {
+			return false
+		}
+	}
+	return true
+}
